@@ -344,10 +344,20 @@ Theorem C02_senc_parsed : forall hsize hlen payload s piv0 s',
 Proof. exact senc_parsed_exact. Qed.
 Print Assumptions C02_senc_parsed.
 
-(* finding C02-K5: without the guard, Size() 33 and 32 bytes written *)
+(* since repo commit 4cf4f8b (ParseReadBox refuses left-over bytes also without sub-samples) the guard always holds:
+   every box the two decoding phases accept writes exactly Size() bytes under a size field that says so *)
+Theorem C02_senc_parsed_exact : forall hsize hlen payload s piv0 s',
+  decoded hsize hlen payload s -> piv0 < 256 -> senc_parse s piv0 = (s', Ok tt) -> 16 + lenN (sn_raw s') < TWO32 ->
+  senc_parse_exact s' = true /\
+  exists b, senc_encode_w s' = (s', Ok b) /\ senc_encode_sw s' = (s', Ok b) /\
+    senc_size s' = Ok (lenN b) /\ firstn 4 b = be32 (lenN b).
+Proof. exact senc_parsed_always_exact. Qed.
+Print Assumptions C02_senc_parsed_exact.
+
+(* finding C02-K5 (the text before 4cf4f8b, senc_parse_pinned): Size() 33 and 32 bytes written; now refused *)
 Theorem C02_senc_parse_trailing_refuted : exists hsize hlen payload s s' b,
-  decoded hsize hlen payload s /\ senc_parse s 0 = (s', Ok tt) /\ senc_parse_exact s' = false /\
-  senc_size s' = Ok 33 /\ senc_encode_w s' = (s', Ok b) /\ lenN b = 32.
+  decoded hsize hlen payload s /\ senc_parse_pinned s 0 = (s', Ok tt) /\ senc_parse_exact s' = false /\
+  senc_size s' = Ok 33 /\ senc_encode_w s' = (s', Ok b) /\ lenN b = 32 /\ snd (senc_parse s 0) = Err.
 Proof. exact senc_parse_trailing_refuted. Qed.
 Print Assumptions C02_senc_parse_trailing_refuted.
 
